@@ -475,6 +475,43 @@ func c20Wiring(c *Ctx, purego bool) {
 	if f := cm; f != nil {
 		b := ana.NewBuilder(c.P, f)
 		ok := false
+		if f.Signature.Recv() == nil {
+			// a plain function handed the state arrays: analysed from its calls in Absorb / Squeeze, parameters bound to
+			// the arguments (which must be the receiver's l and h at every call)
+			okArgs, n := true, 0
+			for _, caller := range []string{"Curl.Absorb", "Curl.Squeeze"} {
+				cf := c.P.Func("pkg/curl", caller)
+				if cf == nil {
+					continue
+				}
+				cb := ana.NewBuilder(c.P, cf)
+				for _, ci := range ana.Calls(cf) {
+					if ci.Common().StaticCallee() != f {
+						continue
+					}
+					n++
+					call := cb.CallTermAt(ci)
+					fieldOfRecv := func(v ssa.Value, i int) bool {
+						fa, isFA := v.(*ssa.FieldAddr)
+						return isFA && fa.Field == i && len(cf.Params) > 0 && fa.X == cf.Params[0]
+					}
+					as := ci.Common().Args
+					if call == nil || len(as) != 2 || len(f.Params) != 2 || !fieldOfRecv(as[0], 0) || !fieldOfRecv(as[1], 1) {
+						okArgs = false
+					} else {
+						recv := &ana.Term{Op: "param", Idx: 0, V: cf.Params[0]}
+						b = ana.NewBuilder(c.P, f)
+						b.Bind = map[*ssa.Parameter]*ana.Term{
+							f.Params[0]: {Op: "faddr", Name: "#0", Args: []*ana.Term{recv}},
+							f.Params[1]: {Op: "faddr", Name: "#1", Args: []*ana.Term{recv}},
+						}
+					}
+				}
+			}
+			if !okArgs || n == 0 {
+				b = ana.NewBuilder(c.P, f)
+			}
+		}
 		for _, ci := range ana.Calls(f) {
 			if ci.Common().StaticCallee() != nil && ci.Common().StaticCallee() == cp {
 				t := b.CallTermAt(ci)
@@ -486,7 +523,7 @@ func c20Wiring(c *Ctx, purego bool) {
 				for _, blk := range f.Blocks {
 					for _, ins := range blk.Instrs {
 						if st, isSt := ins.(*ssa.Store); isSt && ana.InstrDominates(ci, st) {
-							at := b.Of(st.Addr, st)
+							at := stripObj(b.Of(st.Addr, st))
 							if ld, isLd := st.Val.(*ssa.UnOp); isLd {
 								if at.Is("faddr", "#0") && ld.X == a0 {
 									cl = true
